@@ -21,6 +21,10 @@ func TestNewIpnEndpoint(t *testing.T) {
 		{"ipn:23.42", 23, 42, true},
 		{"ipn:0.1", 0, 0, false},
 		{"ipn:1.0", 0, 0, false},
+		{"ipn:01.1", 0, 0, false},
+		{"ipn:1.01", 0, 0, false},
+		{"ipn:1.00", 0, 0, false},
+		{"ipn:10.100", 10, 100, true},
 		{"ipn:99999999999999999999.1", 0, 0, false},
 		{"ipn:11", 0, 0, false},
 		{"ipn1.1", 0, 0, false},
